@@ -119,6 +119,11 @@ func detectContentType(r io.Reader) (string, io.Reader, error) {
 	}
 
 	ct := http.DetectContentType(buf[:n])
+	// http.DetectContentType only knows the local file header signature. A zip
+	// archive without entries consists of just the end of central directory record.
+	if bytes.HasPrefix(buf[:n], []byte("PK\x05\x06")) {
+		ct = "application/zip"
+	}
 
 	// If we are a seeker, we can just undo our read
 	if s, ok := r.(io.Seeker); ok {
